@@ -1320,6 +1320,13 @@ fn gen_c08(r: &mut Prng, _i: u64, _t: Tier) -> Plan {
     let kind = gen_end_cause(r);
     let span = *r.pick(&[12usize, 40, 120, 400]);
     let at = r.below(span) as u64;
+    // the application lets go of its multiplexor and the task's future is dropped right after,
+    // before it is polled again (two locals of a function that returns early)
+    if let FaultKind::AbortTask { ep } = kind {
+        if r.chance(1, 2) {
+            p.faults.push(Fault { at, kind: FaultKind::DropMux { ep } });
+        }
+    }
     p.faults.push(Fault { at, kind });
     p
 }
@@ -1337,6 +1344,11 @@ fn gen_c08_sweep(r: &mut Prng, i: u64, _t: Tier) -> Plan {
     }
     p.link.latency_ms = 0;
     let kind = gen_end_cause(r);
+    if let FaultKind::AbortTask { ep } = kind {
+        if r.chance(1, 2) {
+            p.faults.push(Fault { at: i % C08_STRIDE, kind: FaultKind::DropMux { ep } });
+        }
+    }
     p.faults.push(Fault { at: i % C08_STRIDE, kind });
     p
 }
